@@ -59,13 +59,49 @@ func NewTable(file storage.File) *Table {
 		size:        0,
 	}
 
-	runtime.AddCleanup(t, func(f func() error) {
-		if err := f(); err != nil {
+	type CleanupParams struct {
+		deleteFunc func() error
+		uri        string
+	}
+	retainFile(file.URI())
+	runtime.AddCleanup(t, func(p CleanupParams) {
+		// Another table object of this process may read the same file: a database
+		// restored from a checkpoint of this one (an operator redeployed in its
+		// process) opens the tables this instance wrote.
+		if !releaseFile(p.uri) {
+			return
+		}
+		if err := p.deleteFunc(); err != nil {
 			slog.Error("table cleanup", "err", err)
 		}
-	}, file.CreateDeleteFunc())
+	}, CleanupParams{deleteFunc: file.CreateDeleteFunc(), uri: file.URI()})
 
 	return t
+}
+
+// openFiles counts, per file URI, the table objects of this process that read
+// the file. A table file is deleted only when the last of them is collected.
+var openFiles = struct {
+	mu sync.Mutex
+	n  map[string]int
+}{n: map[string]int{}}
+
+func retainFile(uri string) {
+	openFiles.mu.Lock()
+	defer openFiles.mu.Unlock()
+	openFiles.n[uri]++
+}
+
+// releaseFile reports whether the released table was the last one of the file.
+func releaseFile(uri string) (last bool) {
+	openFiles.mu.Lock()
+	defer openFiles.mu.Unlock()
+	openFiles.n[uri]--
+	if openFiles.n[uri] > 0 {
+		return false
+	}
+	delete(openFiles.n, uri)
+	return true
 }
 
 type TableDocument struct {
@@ -111,7 +147,11 @@ func NewTableFromDocument(fs storage.FileSystem, dataOwnership kv.DataOwnership,
 		uri:           doc.URI,
 	}
 
+	retainFile(doc.URI)
 	runtime.AddCleanup(t, func(p CleanupParams) {
+		if !releaseFile(p.uri) {
+			return
+		}
 		canDelete, err := p.dataOwnership.ExclusivelyOwnsTable(p.uri, p.startKey, p.endKey)
 		if err != nil {
 			slog.Error("failed determining exclusive ownership, not deleting", "err", err, "uri", p.uri)
